@@ -195,7 +195,9 @@ func (r *Rec) ViolateWith(sig, detail string, c interface{}) {
 }
 
 // Violatef is Violate with a formatted detail.
-func (r *Rec) Violatef(sig, format string, a ...interface{}) { r.Violate(sig, fmt.Sprintf(format, a...)) }
+func (r *Rec) Violatef(sig, format string, a ...interface{}) {
+	r.Violate(sig, fmt.Sprintf(format, a...))
+}
 
 // SampleExtra adds an explicit sample (any JSON-able value).
 func (r *Rec) SampleExtra(v interface{}) {
